@@ -9,6 +9,7 @@ import TsV.Model.Encode
 import TsV.Model.Generate
 import TsV.Model.Writer
 import TsV.Model.Config
+import TsV.Model.Annotation
 /-!
 # `tsmodel`: one s-expression request per line in, one JSON answer per line out.
 The driver only decodes, calls the model's executable definitions and prints.
@@ -75,6 +76,35 @@ def decodeLang : Sx → Option Generate.LangCfg
 def decodeSource : Sx → Option Generate.SourceFile
   | .list [.str c, .str fn, .str p, f] => do some ⟨c, fn, p, ← Decode.file f⟩
   | _ => none
+
+namespace Ann
+open TsV.Annotation
+def attr : Sx → Option AAttr
+  | .list [.list segs, .str t] => do some ⟨← Decode.strs segs, t⟩
+  | _ => none
+def attrs (x : Sx) : Option (List AAttr) := do (← x.asList?).mapM attr
+def fld : Sx → Option AField
+  | .list [a, .str r] => do some ⟨← attrs a, r⟩
+  | _ => none
+def variant : Sx → Option AVariant
+  | .list [a, .str n, .list fs, .str r] => do some ⟨← attrs a, n, ← fs.mapM fld, r⟩
+  | _ => none
+def item : Sx → Option AItem
+  | .list [.atom "struct", a, .str h, .list fs] => do some (.struct (← attrs a) h (← fs.mapM fld))
+  | .list [.atom "union", a, .str h, .list fs] => do some (.union (← attrs a) h (← fs.mapM fld))
+  | .list [.atom "enum", a, .str h, .list vs] => do some (.enum (← attrs a) h (← vs.mapM variant))
+  | .list [.atom "other", .str t] => some (.other t)
+  | _ => none
+def jAttrs (as : List AAttr) : J := .arr (as.map fun a => .arr [J.ofStrs a.path, .str a.tokens])
+def jField (f : AField) : J := .obj [("attrs", jAttrs f.attrs), ("rest", .str f.rest)]
+def jItem : AItem → J
+  | .struct a h fs => .obj [("kind", .str "struct".toList), ("attrs", jAttrs a), ("head", .str h), ("fields", .arr (fs.map jField))]
+  | .union a h fs => .obj [("kind", .str "union".toList), ("attrs", jAttrs a), ("head", .str h), ("fields", .arr (fs.map jField))]
+  | .enum a h vs => .obj [("kind", .str "enum".toList), ("attrs", jAttrs a), ("head", .str h),
+      ("variants", .arr (vs.map fun v => .obj [("attrs", jAttrs v.attrs), ("name", .str v.name),
+        ("fields", .arr (v.fields.map jField)), ("rest", .str v.rest)]))]
+  | .other t => .obj [("kind", .str "other".toList), ("tokens", .str t)]
+end Ann
 
 def decodeCtx : Sx → Option ParseContext
   | .list [.atom "ctx", .list ign, multi, .list tos] => do
@@ -234,6 +264,10 @@ def handle (st : DriverState) (req : Sx) : DriverState × J :=
             c.shared.kotlinModule, c.shared.scalaPackage, c.shared.scalaModule, c.shared.goPackage])]
         | none => .obj [("err", .str "go-package-required".toList)])
       | _, _, _ => bad "config")
+  | .list [.atom "expand", it] =>
+    (st, match Ann.item it with
+      | some i => .obj [("ok", Ann.jItem (Annotation.expand i))]
+      | none => bad "expand")
   | .list [.atom "tryfrom", t] =>
     (st, match Decode.ty t with
       | some ty => jOutcome Encode.ty (RustTypes.tryFrom ty)
